@@ -3,6 +3,7 @@ import Model.PagingHist
 import Model.PagingRetry
 import Model.PagingWalk
 import Model.PagingFirst
+import Model.PagingPrep
 import Driver.Util
 namespace Driver.C15
 open Util Paging
@@ -505,6 +506,29 @@ def firstAnswer (full : Bool) (helper pf ps kind script : String) : String :=
     s!"row={row} err={showFirstErr o.err}{if full then " reqs=" ++ showReqs 1 o.reqs else ""}"
   | _, _ => "bad-op"
 
+/-! ## `psess` op (a failing PREPARE at a page fetch): as `sess` (1 node, draining consumers), script entries
+    additionally `Ep<hexcode>` = the PREPARE of this fetch attempt is answered with that ERROR -/
+
+def parsePReply (s : String) : Option Prep.PReply :=
+  if s.startsWith "Ep" then
+    match parseHex (s.drop 2).toString with
+    | some [a, b] => some (.prepFail (.srv (a.toNat * 256 + b.toNat)))
+    | _ => none
+  else (parseReply s).map .base
+
+def psessAnswer (consumer pf ps kind script : String) : String :=
+  match ps.toInt?, (script.splitOn ";").mapM parsePReply with
+  | some pageSize, some sc =>
+    if !(kind == "x" || kind == "xs" || kind == "xd") then "bad-op" else
+    if !(consumer == "scan" || consumer == "scanner" || consumer == "mapscan" || consumer == "slicemap") then "bad-op" else
+    if !Prep.valid true sc true then "bad-op" else
+    let q : Qry := { ident := 1, prepared := true, skipMeta := kind == "xs", pageSize := pageSize,
+                     pageState := [], disableAutoPage := false }
+    let o := Prep.runP (prefetchPos pf) sc false q
+    let rows := if consumer == "slicemap" && o.err.isSome then "nil" else showRows o.rows
+    s!"rows={rows} err={showFail o.err} reqs={showReqs 1 o.reqs}"
+  | _, _ => "bad-op"
+
 def step (_ : Unit) (ws : List String) : Unit × String :=
   ((), match ws with
   | ["iter", consumer, pages] =>
@@ -526,6 +550,7 @@ def step (_ : Unit) (ws : List String) : Unit × String :=
   | ["walkc", _, consumer, pf, ps, kind, script, steps] => walkAnswer true consumer pf ps kind script steps true
   | ["first", _, helper, pf, ps, kind, script] => firstAnswer false helper pf ps kind script
   | ["firstx", _, helper, pf, ps, kind, script] => firstAnswer true helper pf ps kind script
+  | ["psess", _, consumer, pf, ps, kind, script] => psessAnswer consumer pf ps kind script
   | ["rsessx", ver, consumer, _, ps, kind, first, policy, script] => rsessAnswer ver consumer ps kind first policy script
   | _ => "bad-op")
 
